@@ -8,7 +8,7 @@
     num_open_axes, shape, bond dimension, defining_sum = the value after expanding shared
     axes) are those of the generic model Qib.TN; tensor DATA and numpy's reshape/stack are
     hand-modelled (Qib.GateNet.GateNetModel) and tied by the correspondence run. *)
-From Qib Require Import GateNet.GateNetProofs Base.Inst.
+From Qib Require Import GateNet.GateNetProofs TN.TNEinsumPort Base.Inst.
 From Qib Require Gates.CompModel.
 From Run Require Import GenGateNet.
 Local Open Scope Z_scope.
@@ -57,6 +57,48 @@ End RingHelpers.
 
 (** the full index of a gate tensor: output bits of all wires, then input bits *)
 Definition gidx (r c : bits) : list nat := map nb (r ++ c).
+
+(* ================================================================== link to the implementation's contraction *)
+(** 0. The theorems below state values as [defining_sum] of the generated network.  What the
+    library computes is  to_full_tensor applied to net.contract_einsum() ; C07 (a)
+    (TN.TNEinsumPort.contract_einsum_correct / contract_einsum_total, the literal port of
+    as_einsum / contract_einsum / to_full_tensor) proves that this IS the defining sum on every
+    network satisfying the invariant.  Composed here for every well-built gate network on
+    w >= 1 wires: contract_einsum answers, the expansion has 2w axes of dimension 2, and its
+    entry at (outputs r, inputs c) is the defining sum used in theorems 1-12. *)
+Lemma gidx_in_range w r c : length r = w -> length c = w -> in_range (repeat 2%nat (2 * w)) (gidx r c).
+Proof.
+  intros Hr Hc. split.
+  - unfold gidx. rewrite map_length, app_length, repeat_length. lia.
+  - intros k d Hk. apply nth_error_In in Hk. apply repeat_spec in Hk. subst d.
+    unfold gidx. destruct (Nat.lt_ge_cases k (length (r ++ c))) as [Hlt|Hge].
+    + rewrite (nth_indep _ O (nb false)) by (rewrite map_length; exact Hlt). rewrite map_nth.
+      destruct (nth k (r ++ c) false); cbn; lia.
+    + rewrite nth_overflow by (rewrite map_length; exact Hge). lia.
+Qed.
+
+Theorem C06_contract_einsum_expands_to_the_defining_sum :
+  forall (K : Scalar) (L : ScalarLaws K) (st : bst) (w nbonds : nat) (data : Z -> list nat -> K),
+    gate_net_ok st w nbonds -> (1 <= w)%nat ->
+    exists v am, contract_einsum (net_of st) data = Some (v, am)
+      /\ fst (to_full_tensor v am) = repeat 2%nat (2 * w)
+      /\ forall r c, length r = w -> length c = w ->
+           snd (to_full_tensor v am) (gidx r c) = defining_sum (net_of st) data (gidx r c).
+Proof.
+  intros K L st w nbonds data G Hw. destruct G as [_ W _ Hax Hsh _ _].
+  assert (NE : real_tensors (net_of st) <> [] \/ vbids (net_of st) <> []).
+  { right. unfold num_open_axes in Hax. unfold vbids.
+    destruct (dget VT (tensors (net_of st))) as [vt|] eqn:Ev; [|discriminate].
+    cbn [option_map] in Hax. injection Hax as Hax. unfold t_ndim in Hax.
+    destruct (wf_T _ (proj1 W) VT vt (dget_In _ _ _ Ev)) as [_ Hl].
+    intros E. rewrite E in Hl. cbn in Hl. lia. }
+  destruct (contract_einsum_total (net_of st) data W NE) as [v [am H]].
+  exists v, am. split; [exact H|].
+  destruct (contract_einsum_correct (net_of st) data v am W H) as [shp [S1 [S2 S3]]].
+  rewrite Hsh in S1. injection S1 as <-. split; [exact S2|].
+  intros r c Hr Hc. apply S3. apply gidx_in_range; assumption.
+Qed.
+Print Assumptions C06_contract_einsum_expands_to_the_defining_sum.
 
 (* ================================================================== wrap *)
 (** 1. wrap(a) is consistent, has the shape of a and contracts to a  (any shape) *)
@@ -136,6 +178,30 @@ Proof.
   apply (ctrl_net_is_matrix m nt p0 pt U xo0 xi0 xos xis ot it); cbn [length] in *; lia.
 Qed.
 Print Assumptions C06_controlled_network_is_the_matrix.
+
+(** 5-impl. hence: what the implementation's contract_einsum returns for a controlled gate,
+    expanded by to_full_tensor, is the gate's matrix (composition of 0, 3 and 5) *)
+Theorem C06_controlled_contract_einsum_is_the_matrix :
+  forall (K : Scalar) (L : ScalarLaws K) (m nt : nat) (p0 : bool) (pt : list bool) (U : BMx K),
+    length pt = m ->
+    exists v am,
+      contract_einsum (net_of (gen_ctrl_build (Z.of_nat (S m)) (Z.of_nat nt) (map b2z (p0 :: pt))))
+                      (gen_ctrl_data nt U) = Some (v, am)
+      /\ fst (to_full_tensor v am) = repeat 2%nat (2 * (S m + nt))
+      /\ forall oc ic ot it : bits,
+           length oc = S m -> length ic = S m -> length ot = nt -> length it = nt ->
+           snd (to_full_tensor v am) (gidx (oc ++ ot) (ic ++ it))
+           = CompModel.ctrl_mat (p0 :: pt) U (oc ++ ot) (ic ++ it).
+Proof.
+  intros K L m nt p0 pt U Hpt.
+  destruct (C06_contract_einsum_expands_to_the_defining_sum K L _ _ _ (gen_ctrl_data nt U)
+              (C06_controlled_network_structure m nt p0 pt Hpt) ltac:(lia)) as [v [am [H1 [H2 H3]]]].
+  exists v, am. split; [exact H1|]. split; [exact H2|].
+  intros oc ic ot it Hoc Hic Hot Hit.
+  rewrite H3 by (rewrite app_length; lia).
+  apply C06_controlled_network_is_the_matrix; assumption.
+Qed.
+Print Assumptions C06_controlled_contract_einsum_is_the_matrix.
 
 (** 5'. the same value as entries: identity unless the controls read the pattern *)
 Theorem C06_controlled_network_entries :
